@@ -16,7 +16,7 @@ import (
 	"filippo.io/age/internal/zzverif/refage"
 )
 
-var modes = []string{"whole", "onebyte", "bufio4096", "bufio16"}
+var modes = []string{"whole", "onebyte", "bufio4096", "bufio16", "bufio16-whole", "bufio4095-whole"}
 
 func source(mode int, in []byte) io.Reader {
 	switch mode {
@@ -26,8 +26,13 @@ func source(mode int, in []byte) io.Reader {
 		return iotest.OneByteReader(bytes.NewReader(in))
 	case 2:
 		return bufio.NewReaderSize(bytes.NewReader(in), 4096)
-	default:
+	case 3:
 		return bufio.NewReaderSize(iotest.OneByteReader(bytes.NewReader(in)), 16)
+	case 4:
+		// a caller's own small bufio.Reader over the whole input: the parser's reader sits on top of it and over-reads
+		return bufio.NewReaderSize(bytes.NewReader(in), 16)
+	default:
+		return bufio.NewReaderSize(bytes.NewReader(in), 4095)
 	}
 }
 
@@ -216,7 +221,7 @@ func main() {
 		c.Part("byte-strings")
 		alpha := []byte{'-', '>', ' ', '\n', '\r', 'A', '=', 0x80}
 		maxLen := c.Pick(6, 7)
-		c.Bound("every byte string of length <= %d over %q inserted at each of 3 line slots of a valid skeleton, 2 delivery modes", maxLen, alpha)
+		c.Bound("every byte string of length <= %d over %q inserted at each of 3 line slots of a valid skeleton, the first 2 delivery modes", maxLen, alpha)
 		skel := [][]byte{
 			[]byte("age-encryption.org/v1\n"),
 			[]byte("-> t a\n"),
@@ -268,7 +273,7 @@ func main() {
 		c.Part("one-byte-edits")
 		valid := validHeaders(mac)
 		subs := []byte{0x00, '\n', '\r', ' ', '-', '>', '=', 'A', 0x7f, 0x80, 0xff, '/'}
-		c.Bound("every deletion, and every insertion/substitution from %d byte values, at every position of %d valid headers (+ 9 payload bytes), 2 delivery modes", len(subs), len(valid))
+		c.Bound("every deletion, and every insertion/substitution from %d byte values, at every position of %d valid headers (+ 9 payload bytes), the first 2 delivery modes", len(subs), len(valid))
 		for hi, h := range valid {
 			in0 := append(append([]byte{}, h...), "payload!!"...)
 			if sig, desc, acc := checkOne(in0, 0); sig != "" || !acc {
@@ -432,6 +437,63 @@ func main() {
 			}
 			checkHdr(fmt.Sprintf("body%d", n), &refage.Header{Stanzas: []refage.Stanza{{Type: "t", Args: []string{"a"}, Body: body(n)}, {Type: "u", Body: body(n / 2)}}, MAC: macs[2]})
 			k++
+		}
+		// a header value that is marshalled, edited, and marshalled again (in place, by replacing stanza pointers, by
+		// assigning a new list of the same length) must serialise as what it now is; so must a header returned by Parse
+		if c.Shard == 0 {
+			mk := func(h *refage.Header) *format.Header {
+				fh := &format.Header{MAC: append([]byte{}, h.MAC...)}
+				for _, st := range h.Stanzas {
+					fh.Recipients = append(fh.Recipients, &format.Stanza{Type: st.Type, Args: append([]string{}, st.Args...), Body: append([]byte{}, st.Body...)})
+				}
+				return fh
+			}
+			h1 := &refage.Header{Stanzas: []refage.Stanza{{Type: "X25519", Args: []string{strings.Repeat("a", 43)}, Body: body(32)}, {Type: "t", Args: []string{"b", "c"}, Body: body(100)}}, MAC: macs[2]}
+			targets := []*refage.Header{
+				{Stanzas: []refage.Stanza{{Type: "X25519", Args: []string{strings.Repeat("b", 43)}, Body: body(32)}, {Type: "t", Args: []string{"b", "c"}, Body: body(100)}}, MAC: macs[2]},
+				{Stanzas: []refage.Stanza{{Type: "X25519", Args: []string{strings.Repeat("a", 43)}, Body: body(32)}, {Type: "u", Args: []string{"b"}, Body: body(7)}}, MAC: macs[1]},
+				{Stanzas: []refage.Stanza{{Type: "t", Args: []string{"b", "c"}, Body: body(100)}, {Type: "X25519", Args: []string{strings.Repeat("a", 43)}, Body: body(32)}}, MAC: macs[2]},
+				{Stanzas: []refage.Stanza{{Type: "X25519", Args: []string{strings.Repeat("a", 43)}, Body: body(48)}, {Type: "t", Args: nil, Body: nil}}, MAC: macs[0]},
+			}
+			for ti, h2 := range targets {
+				for how := 0; how < 3; how++ {
+					for src := 0; src < 2; src++ {
+						id := fmt.Sprintf("remarshal.t%d.how%d.src%d", ti, how, src)
+						c.Eval(1)
+						fh := mk(h1)
+						if src == 1 { // the value comes out of Parse
+							p, _, err := format.Parse(bytes.NewReader(refage.Marshal(h1)))
+							if err != nil {
+								c.Fail("canonical-header-refused", id, err.Error(), nil)
+								continue
+							}
+							fh = p
+						}
+						var first, nomac, second bytes.Buffer
+						fh.MarshalWithoutMAC(&nomac)
+						fh.Marshal(&first)
+						switch how {
+						case 0:
+							for i, st := range h2.Stanzas {
+								fh.Recipients[i].Type = st.Type
+								fh.Recipients[i].Args = append([]string{}, st.Args...)
+								fh.Recipients[i].Body = append([]byte{}, st.Body...)
+							}
+						case 1:
+							for i := range h2.Stanzas {
+								fh.Recipients[i] = mk(h2).Recipients[i]
+							}
+						default:
+							fh.Recipients = mk(h2).Recipients
+						}
+						fh.MAC = append([]byte{}, h2.MAC...)
+						fh.Marshal(&second)
+						if !bytes.Equal(first.Bytes(), refage.Marshal(h1)) || !bytes.Equal(second.Bytes(), refage.Marshal(h2)) {
+							c.Fail("marshal-differs-from-reference/after-edit", id, "a header marshalled, edited and marshalled again does not serialise as its current fields", map[string]interface{}{"got": ev.Clip(second.String(), 400), "want": ev.Clip(string(refage.Marshal(h2)), 400)})
+						}
+					}
+				}
+			}
 		}
 		// after a Marshal whose writer failed (at every write call, with or without a partial count) a later Marshal is unaffected
 		if c.Shard == 0 {
